@@ -37,7 +37,7 @@ ASSUMPTIONS = [
     'taxonomy and int/float columns convert on every row',
 ]
 ANCHORS = ['Table.add_metadata', 'Table.del_metadata', 'Table._cast_metadata', 'MetadataMap.from_file', '_add_metadata']
-REQUIRED = ['other_tables_rechecked', 'built_with_one_entry_object',
+REQUIRED = ['mapfile_quotes_kept', 'other_tables_rechecked', 'built_with_one_entry_object',
             'built_from_other_tables_metadata', 'add_metadata_calls', 'add_on_axis_without_metadata',
             'add_partial_overlap', 'add_overwrite_existing_key',
             'del_metadata_calls', 'del_on_jagged_metadata', 'del_keys_none',
@@ -249,19 +249,24 @@ def run_api(ctx, r, index):
 
 
 # ---------------------------------------------------------------- mapspec
-def mapspec(text, header=None, ints=(), floats=(), sc=(), pipe=()):
+def mapspec(text, header=None, ints=(), floats=(), sc=(), pipe=(),
+            strip_quotes=True):
     """Independent reading of the documented mapping-file format."""
     hdr = list(header) if header else None
     rows = []
+
+    def clean(x):
+        # double quotes are dropped unless the caller asks to keep them
+        return (x.replace('"', '') if strip_quotes else x).strip()
     for raw in text.split('\n'):
-        line = raw.replace('"', '').strip()
+        line = clean(raw)
         if not line:
             continue
         if line.startswith('#'):
             if hdr is None:
                 hdr = line[1:].strip().split('\t')
             continue
-        rows.append([f.replace('"', '').strip() for f in line.split('\t')])
+        rows.append([clean(f) for f in line.split('\t')])
     rel = {}
     for row in rows:
         d = {}
@@ -377,22 +382,32 @@ def run_mapfile(ctx, r, index):
     fns.update(dict.fromkeys(opts['floats'], _float))
     how = r.choice(['lines', 'handle', 'path'])
     desc = {'file': text, 'options': opts, 'as': how}
+    kw = {}
+    keep_quotes = r.random() < .25
+    if keep_quotes:
+        # documented keyword: leave double quotes in place
+        kw['strip_quotes'] = False
+        desc['strip_quotes'] = False
+        ctx.count('mapfile_quotes_kept')
+    elif r.random() < .2:
+        kw['strip_quotes'] = True
+        kw['suppress_stripping'] = False
     exp = mapspec(text, opts['header'], opts['ints'], opts['floats'],
-                  opts['sc'], opts['pipe'])
+                  opts['sc'], opts['pipe'], strip_quotes=not keep_quotes)
     p = None
     try:
         if how == 'lines':
             got = MetadataMap.from_file(text.split('\n'), process_fns=fns,
-                                        header=opts['header'])
+                                        header=opts['header'], **kw)
         elif how == 'handle':
             got = MetadataMap.from_file(io.StringIO(text), process_fns=fns,
-                                        header=opts['header'])
+                                        header=opts['header'], **kw)
         else:
             p = ctx.path('c18_%d.txt' % index)
             with open(p, 'w', encoding='utf-8') as f:
                 f.write(text)
             got = MetadataMap.from_file(p, process_fns=fns,
-                                        header=opts['header'])
+                                        header=opts['header'], **kw)
     finally:
         if p and os.path.exists(p):
             os.remove(p)
